@@ -28,10 +28,11 @@ type SBasic struct {
 	N   NStr
 }
 
-// SKey: a comparable struct, used as a map key and as a value.
+// SKey: a comparable struct, used as a map key and as a value. Its fields are omitted from JSON when empty (like
+// schema.FunctionCall / schema.ToolCall), so the textual form of a map key depends on which fields are set.
 type SKey struct {
-	A string
-	B int
+	A string `json:"a,omitempty"`
+	B int    `json:"b,omitempty"`
 }
 
 // SKeyAny: a comparable struct with an interface-typed field, used as a map key and as a value.
